@@ -29,8 +29,11 @@ func Verif_C16_unknown_notice() {
 	}
 	other := n.verifListener("oth")
 	ts := "svc"
-	if verifapi.Bool() {
+	switch verifapi.Choose(3) {
+	case 1:
 		ts = verifName1() // some other service name nobody listens on
+	case 2: // a name that differs from a reserved one only by letter case is an ordinary name nobody listens on
+		ts = []string{"Ping", "PING", "Unreach", "pinG"}[verifapi.Choose(4)]
 	}
 	drop := verifapi.Bool()
 	if drop {
